@@ -199,6 +199,7 @@ def main():
     # a fan-out with a Retry around one Task with its own Retry, the Task always failing: (outer+1) x (inner+1) invocations, with the inner back-off
     # starting afresh in every attempt of the fan-out and the outer interval between attempts
     nested = 0
+    scope_cases, scope_desc = [], []
     for kind in ("Parallel", "Map"):
         for pm, tm, pi, ti in ([(1, 1, 3, 1), (2, 2, 5, 1), (1, 3, 4, 1), (3, 1, 2, 1), (2, 1, 3, 2)] if thorough else [(1, 1, 3, 1), (2, 2, 5, 1), (1, 3, 4, 1)]):
             inner = {"StartAt": "T", "States": {"T": {"Type": "Task", "Resource": sim.FN + "f", "End": True,
@@ -225,9 +226,20 @@ def main():
             nested += 1
             d = {"state": kind, "outer_retry": outer["Retry"], "inner_retry": inner["States"]["T"]["Retry"], "task": "always fails with A",
                  "observed_delays_between_invocations_s": delays, "expected": expected, "run": r}
+            scope_cases.append("(%d, %d, %d, %d, [%s])" % (pm, tm, pi, ti, "; ".join(str(x) for x in delays)))
+            scope_desc.append(d)
             if r != "quiescent" or delays != expected:
                 ck.violation("retry counters leaked between a %s state and the Task in its branch: the Task was invoked %d times with delays %r, the policy gives %d invocations with delays %r: %s"
                              % (kind, len(rpcs), delays, len(expected) + 1, expected, json.dumps(d)[:700]), {"case": d})
+    rs = ck.eval_cases("scope", "Cases RetryScope C07ScopeOracle", "c07s_case", scope_cases, ["c07_scope_model_ok", "c07_scope_spec_ok"], per_file=200,
+                       prelude="From Coq Require Import List Arith. Import ListNotations. Close Scope string_scope.")
+    if rs is not None:
+        for i in rs["c07_scope_spec_ok"][:2]:
+            ck.violation("the delays between the invocations of a Task with Retry inside a fan-out with Retry are not those of the policy (RetryScope.spec): %s" % json.dumps(scope_desc[i])[:700],
+                         {"case": scope_desc[i], "monitor": "c07_scope_spec_ok"})
+        if not rs["c07_scope_spec_ok"]:
+            for i in rs["c07_scope_model_ok"][:2]:
+                ck.broken.append("correspondence Model/RetryScope.v <-> engine: %s" % json.dumps(scope_desc[i])[:400])
     # a catcher of a Parallel / Map state places the Error Output into the ORIGINAL input of that state (not into the input of the branch state that failed)
     for kind in ("Parallel", "Map"):
         for rp in ("$.caught", "$.a.err"):        # (at "$" the data becomes an object with an Error member, which the engine reads as a failure: finding F16 of C01)
